@@ -81,6 +81,7 @@ type Frame struct {
 	callSeq  int
 	pending  []pendingEdge
 	iters    map[ssa.Value]*rangeState
+	backEdges map[int]int
 }
 
 type nameBinding struct {
@@ -492,16 +493,21 @@ func (fr *Frame) exec(st *State, g *Term) []retInfo {
 		if ord, isLoop := fr.loops[b]; isLoop {
 			// check invariants on entry edges
 			invs := fr.loopInvariants(ord)
-			for _, e := range in {
+			for ei, e := range in {
+				sfx := ""
+				if ei > 0 {
+					sfx = fmt.Sprintf("@%d", ei)
+				}
 				for k, inv := range invs {
 					goal := fr.evalInvariant(inv, b, e.pred, e.st)
-					c.oblige(&Obligation{Name: fmt.Sprintf("%s/inv-entry#loop%d.%s", c.unitName, ord, clauseLabel(inv, k)), Func: c.unitName, Kind: "inv-entry",
+					c.oblige(&Obligation{Name: fmt.Sprintf("%s/inv-entry#loop%d.%s%s", c.unitName, ord, clauseLabel(inv, k), sfx), Func: c.unitName, Kind: "inv-entry",
 						Guard: e.guard, Goal: goal, Pos: fmt.Sprintf("%s:%d", inv.File, inv.Line), Src: inv.Src, Tags: inv.Tags})
 				}
 			}
 			bst = c.joinStates(guards, sts)
 			// havoc what the loop body may write
 			mods := fr.loopMods(b)
+			c.noNote++
 			if mods == nil || mods["*"] {
 				c.havocAll(bst)
 			} else {
@@ -511,6 +517,23 @@ func (fr *Frame) exec(st *State, g *Term) []retInfo {
 				}
 				sort.Strings(ms)
 				for _, m := range ms {
+					if strings.HasPrefix(m, "fresh:") {
+						// the loop writes this array only at objects allocated by this function: objects that existed at
+						// function entry keep their contents (framed havoc)
+						name := m[len("fresh:"):]
+						if mods[name] {
+							continue
+						}
+						if _, ok := c.heapSorts[name]; !ok {
+							continue
+						}
+						pre := c.heapGet(bst, name)
+						nv := c.heapHavoc(bst, name)
+						a0 := sanitize("$alloc") + "@0"
+						c.declare(a0, SInt)
+						c.assume(mk(SBool, fmt.Sprintf("(forall ((fr Int)) (! (=> (<= fr %s) (= (select %s fr) (select %s fr))) :pattern ((select %s fr))))", a0, nv.S, pre.S, nv.S)))
+						continue
+					}
 					if _, ok := c.heapSorts[m]; !ok {
 						continue
 					}
@@ -523,6 +546,7 @@ func (fr *Frame) exec(st *State, g *Term) []retInfo {
 					c.heapHavoc(bst, m)
 				}
 			}
+			c.noNote--
 			// phis are arbitrary
 			for _, ins := range b.Instrs {
 				phi, ok := ins.(*ssa.Phi)
@@ -604,9 +628,14 @@ func (fr *Frame) edge(from, to *ssa.BasicBlock, g *Term, st *State, at ssa.Instr
 	if isBack(from, to) {
 		ord := fr.loops[to]
 		invs := fr.loopInvariants(ord)
+		if fr.backEdges == nil {
+			fr.backEdges = map[int]int{}
+		}
+		be := fr.backEdges[ord]
+		fr.backEdges[ord] = be + 1
 		for k, inv := range invs {
 			goal := fr.evalInvariant(inv, to, from, st)
-			c.oblige(&Obligation{Name: fmt.Sprintf("%s/inv-preserve#loop%d.%s", c.unitName, ord, clauseLabel(inv, k)), Func: c.unitName, Kind: "inv-preserve",
+			c.oblige(&Obligation{Name: fmt.Sprintf("%s/inv-preserve#loop%d.%s@%d", c.unitName, ord, clauseLabel(inv, k), be), Func: c.unitName, Kind: "inv-preserve",
 				Guard: g, Goal: goal, Pos: fmt.Sprintf("%s:%d", inv.File, inv.Line), Src: inv.Src, Tags: inv.Tags})
 		}
 		return
